@@ -343,6 +343,93 @@ CHAR_UPPER = z3.Function("Char.upper_id", CHAR, z3.IntSort())
 CHAR_ISASCII = z3.Function("Char.isascii", CHAR, z3.BoolSort())
 
 
+# ---------------------------------------------------------------------------------------- str predicates of one char
+#
+# `c.isdigit()`, `c.isdecimal()`, `c.isnumeric()`, `c.isalpha()`, ... of a single abstract character c (e.g. chr(k) for
+# a symbolic byte k).  For code points 0..255 the answer is EXACTLY CPython's: a table taken from the running
+# interpreter at import time (`CHAR_PRED_ORDS[name]` = the code points < 256 for which `chr(o).<name>()` is true — note
+# that these are NOT the ASCII classes: '²' '³' '¹' are digits, '¼' '½' '¾' numeric, 'ª' 'º' 'µ' letters), written as a
+# disjunction of ranges over `ord(c)`.  Above 255 the answer is an uninterpreted predicate of the character (nothing
+# is claimed).  Cross-checked by `xcheck_char_predicates()`: the range formula evaluated by z3 at every code point
+# 0..255 against CPython, and the table against the independent `unicodedata` definitions of the predicates.
+CHAR_PREDICATES = ("isdigit", "isdecimal", "isnumeric", "isalpha", "isalnum", "isspace", "isupper", "islower", "isprintable")
+CHAR_PRED_ORDS = {name: tuple(o for o in range(256) if getattr(chr(o), name)()) for name in CHAR_PREDICATES}
+_CHAR_PRED_UF = {name: z3.Function(f"Char.{name}", CHAR, z3.BoolSort()) for name in CHAR_PREDICATES}
+
+
+def _ranges(ords):
+    out = []
+    for o in ords:
+        if out and out[-1][1] == o - 1:
+            out[-1][1] = o
+        else:
+            out.append([o, o])
+    return [(a, b) for a, b in out]
+
+
+def char_pred_formula(name, o, above):
+    """z3 Bool: `chr(o).<name>()` for the Int term o (a code point); `above` = the term used for o >= 256."""
+    rs = [(o == a) if a == b else z3.And(o >= a, o <= b) for a, b in _ranges(CHAR_PRED_ORDS[name])]
+    low = z3.Or(*rs) if rs else z3.BoolVal(False)
+    return z3.If(o < 256, low, above)
+
+
+def char_predicate(c, name):
+    """`c.<name>()` for an opaque Char c (see above)."""
+    o = V._z(char_ord(c))
+    return mk_bool(char_pred_formula(name, o, _CHAR_PRED_UF[name](c.e)))
+
+
+class CharProtocol:
+    """Attribute protocol of the opaque kind 'Char' (a one-character str): the argument-less predicates of
+    `CHAR_PREDICATES`; every other attribute stays Unsupported."""
+
+    kind = "Char"
+
+    def getattr(self, ip, st, obj, name):
+        if name in CHAR_PREDICATES:
+            from .protocol import OpaqueCall
+
+            return OpaqueCall(obj, name, self)
+        raise Unsupported(f"attribute {name} of opaque {self.kind}")
+
+    def call(self, ip, st, recv, name, args, kwargs):
+        if args or kwargs:
+            from .engine import PyRaise, SExc
+
+            raise PyRaise(SExc(TypeError, (f"str.{name}() takes no arguments",)))
+        return char_predicate(recv, name)
+
+
+def xcheck_char_predicates():
+    """(ok, detail): the single-character predicate model agrees with CPython on every code point 0..255 (formula
+    evaluated by z3 at the concrete code point), and the table agrees with the `unicodedata` definitions."""
+    import unicodedata as U
+
+    bad = []
+    o = z3.Int("o")
+    for name in CHAR_PREDICATES:
+        f = char_pred_formula(name, o, z3.BoolVal(False))
+        for k in range(256):
+            got = z3.is_true(z3.simplify(z3.substitute(f, (o, z3.IntVal(k)))))
+            if got != getattr(chr(k), name)():
+                bad.append((name, k))
+    indep = {
+        "isdecimal": lambda ch: U.category(ch) == "Nd",
+        "isdigit": lambda ch: U.digit(ch, None) is not None,
+        "isnumeric": lambda ch: U.numeric(ch, None) is not None,
+        "isalpha": lambda ch: U.category(ch) in ("Lu", "Ll", "Lt", "Lm", "Lo"),
+    }
+    for name, ref in indep.items():
+        for k in range(256):
+            if ref(chr(k)) != (k in CHAR_PRED_ORDS[name]):
+                bad.append((name + "/unicodedata", k))
+    ascii_digits = tuple(range(48, 58))
+    if not (set(ascii_digits) < set(CHAR_PRED_ORDS["isdigit"]) and CHAR_PRED_ORDS["isdecimal"] == ascii_digits):
+        bad.append(("ascii-digits", None))
+    return (not bad, f"{len(CHAR_PREDICATES)} predicates x 256 code points; isdigit also true at {[k for k in CHAR_PRED_ORDS['isdigit'] if k > 57]}; mismatches: {bad[:4]}")
+
+
 def isascii_of_text(st, t):
     """`s.isascii()` of a str: every character is ASCII (CPython: all code points < 128; True for '').  Being ASCII
     is an uninterpreted predicate of the opaque character (nothing else in the model depends on code points)."""
